@@ -184,6 +184,16 @@ theorem find?_set {c : Cache κ ν} {k k' : κ} {v : ν} {ttl : Int} {sz : Nat} 
       have := find?_erase_some h
       right; left; exact ⟨this.1, hok, this.2⟩
 
+/-- After a successful `set k`, an entry under `k` is visible only when the TTL is positive (otherwise the
+    sleeper has already deleted it). -/
+theorem find?_set_ok_pos {c : Cache κ ν} {k : κ} {v : ν} {ttl : Int} {sz : Nat} {e : Entry ν}
+    (hok : (set c k v ttl sz).2 = .ok) (h : find? k (set c k v ttl sz).1.entries = some e) : ttl > 0 := by
+  rcases set_cases c k v ttl sz with ⟨_, h1⟩ | ⟨_, _, _, _, _, hcase⟩
+  · rw [h1] at hok; cases hok
+  · rcases hcase with ⟨httl, _, _⟩ | ⟨_, hent, _⟩
+    · exact httl
+    · rw [hent, find?_erase] at h; simp at h
+
 theorem fire_cases (c : Cache κ ν) (i : Nat) :
     fire c i = (c, .absent) ∨ fire c i = (c, .notDue) ∨
     ∃ s, c.pending[i]? = some s ∧ s.due ≤ c.now ∧
